@@ -30,7 +30,18 @@
 (*   c.n, c.t   size and threshold of the keyper set                       *)
 (*   c.signers  sequence of naturals; a value >= c.n is out of range       *)
 (*   c.sigs     sequence of signature tokens                               *)
-(*   c.mut      see above                                                  *)
+(*   c.mut      see above; the additional value "idlen" says that the      *)
+(*              message carries the base identity list with the LENGTH of  *)
+(*              one preimage changed (bytes appended, truncated, trailing  *)
+(*              zero bytes stripped): such a list has no SSZ hash tree     *)
+(*              root (fixed size 52 / 32 bytes), so no signature over it   *)
+(*              exists (o is never "idlen") and CheckSignature fails       *)
+(*   c.ann      history of the keyper sets announced for the message's     *)
+(*              eon, oldest first, tokens "S" = the keyper set             *)
+(*              <<member 0, .., member n-1>>, "X" = another set of the     *)
+(*              same size and threshold <<outsider, member 0, .., member   *)
+(*              n-2>> (a re-announcement after a reorg).  The set of the   *)
+(*              eon is the LAST one announced.                             *)
 (*                                                                         *)
 (* LenRule names the two versions of the loops over the parallel lists:    *)
 (*   "asfound"  the code before fix C06-1: the signature loop runs over    *)
@@ -41,7 +52,8 @@
 (***************************************************************************)
 EXTENDS Integers, Sequences, FiniteSets
 
-CONSTANT LenRule      \* "equal" | "asfound"
+CONSTANTS LenRule,    \* "equal" | "asfound"
+          StoreRule   \* "last" | "first"  (access node storage, see StoreFold)
 
 GnosisFields  == {"instance", "eon", "slot", "txptr", "ids"}
 ServiceFields == {"instance", "eon", "ids"}
@@ -58,10 +70,15 @@ Accept == Out("accept", "")
 (* other data recovers an unrelated address (result "false").  Bytes that  *)
 (* are not a signature either fail to recover ("err") or recover an        *)
 (* unrelated address ("false").                                            *)
-CheckSignature(c, i, signer) ==
+(* HashTreeRoot fails ("err") before any recovery when a preimage has the wrong size.     *)
+KeyAt(set, idx) == IF set = "S" THEN idx ELSE idx - 1     \* who holds index idx: a member, or
+                                                          \* -1 = the outsider (compare Who)
+Who(c, b) == IF b = c.n THEN 0 - 1 ELSE b                 \* signature token b as a key: member or -1
+CheckSignature(c, i, signer, set) ==
     LET s == c.sigs[i] IN
-    IF s.k # "ok" THEN {"false", "err"}
-    ELSE IF s.o = c.mut /\ s.b = signer THEN {"true"}
+    IF c.mut = "idlen" THEN {"err"}
+    ELSE IF s.k # "ok" THEN {"false", "err"}
+    ELSE IF s.o = c.mut /\ Who(c, s.b) = KeyAt(set, signer) THEN {"true"}
     ELSE {"false"}
 
 (* validateSignerIndices (identical in both flavours): first failing check of the loop *)
@@ -79,39 +96,56 @@ GetSubsetFails(signers, n) == \E i \in DOMAIN signers : signers[i] >= n
 
 (* the loop `for signatureIndex := 0; signatureIndex < len(Signatures); ...` with
    `signer := signers[signatureIndex]` *)
-RECURSIVE SigLoop(_, _)
-SigLoop(c, i) ==
+RECURSIVE SigLoop(_, _, _)
+SigLoop(c, set, i) ==
     IF i > Len(c.sigs) THEN {Accept}
     ELSE IF i > Len(c.signers) THEN {Out("panic", "index")}
     ELSE UNION { IF x = "err" THEN {Out("reject", "sigerr")}
                  ELSE IF x = "false" THEN {Out("reject", "siginvalid")}
-                 ELSE SigLoop(c, i + 1) : x \in CheckSignature(c, i, c.signers[i]) }
+                 ELSE SigLoop(c, set, i + 1) : x \in CheckSignature(c, i, c.signers[i], set) }
 
 (* everything after the flavour specific prologue *)
-ValidateCommon(c) ==
+ValidateCommon(c, set) ==
     IF Len(c.signers) # c.t THEN {Out("reject", "count")}
     ELSE IF LenRule = "equal" /\ Len(c.sigs) # Len(c.signers) THEN {Out("reject", "siglen")}
     ELSE LET v == ValidateSignerIndices(c.signers, c.n) IN
          IF v # "ok" THEN {Out("reject", v)}
          ELSE IF GetSubsetFails(c.signers, c.n) THEN {Out("reject", "subset")}
-         ELSE SigLoop(c, 1)
+         ELSE SigLoop(c, set, 1)
 
 (* gnosis.ValidateDecryptionKeysSignatures *)
-ValidateGnosis(c) == ValidateCommon(c)
+ValidateGnosis(c, set) == ValidateCommon(c, set)
 
 (* shutterservice.ValidateDecryptionKeysSignatures *)
 ServiceEmptyException(c) ==
     IF LenRule = "asfound" THEN Len(c.signers) = 0 \/ Len(c.sigs) = 0
     ELSE Len(c.signers) = 0 /\ Len(c.sigs) = 0
-ValidateService(c) ==
-    IF ServiceEmptyException(c) THEN {Accept} ELSE ValidateCommon(c)
+ValidateService(c, set) ==
+    IF ServiceEmptyException(c) THEN {Accept} ELSE ValidateCommon(c, set)
 
-ValidateSignatures(c) == IF c.f = "gnosis" THEN ValidateGnosis(c) ELSE ValidateService(c)
+ValidateWith(c, set) == IF c.f = "gnosis" THEN ValidateGnosis(c, set) ELSE ValidateService(c, set)
 
-(* DecryptionKeysHandler.ValidateMessage of the gnosis keyper, of the service keyper and of the
-   access node, for a message whose other fields pass (extra present, slot/txptr in range, at
-   least one key, keyper set of the eon known; access node: instance id, valid ordered keys):
-   the verdict is the one of ValidateDecryptionKeysSignatures with the stored keyper set. *)
+(* the set of the eon: the last announcement *)
+EonSet(c) == c.ann[Len(c.ann)]
+
+(* the bare functions are handed the keyper set of the eon by their caller *)
+ValidateSignatures(c) == ValidateWith(c, EonSet(c))
+
+(* gnosisaccessnode.Storage.AddKeyperSet / GetKeyperSet and node.onNewKeyperSet: a map keyed by
+   the keyper config index; every announcement overwrites the entry (StoreRule "last").  The
+   named alternative "first" keeps the first entry (a stale set after a re-announcement). *)
+RECURSIVE StoreFold(_, _, _)
+StoreFold(ann, i, cur) ==
+    IF i > Len(ann) THEN cur
+    ELSE StoreFold(ann, i + 1, IF StoreRule = "first" /\ cur # "" THEN cur ELSE ann[i])
+StoredSet(c) == StoreFold(c.ann, 1, "")
+AccessValidateMessage(c) == ValidateWith(c, StoredSet(c))
+
+(* DecryptionKeysHandler.ValidateMessage of the gnosis keyper and of the service keyper, for a
+   message whose other fields pass (extra present, slot/txptr in range, at least one key): the
+   keyper set is read from the database row of the eon (the observer upserts it), the verdict is
+   the one of ValidateDecryptionKeysSignatures.  The access node (other fields: instance id,
+   valid ordered keys) reads it from its Storage: AccessValidateMessage above. *)
 ValidateMessage(c) == ValidateSignatures(c)
 
 (* DecryptionKeysHandler.HandleMessage (both flavours):
